@@ -196,6 +196,14 @@ def run_case(case, tier):
         ctx = {"invs": [i.spec["argv"] for i in r.invs], "rcs": [i.rc for i in r.invs], "envs": [i.spec["env"] for i in r.invs],
                "decisions": r.tl.decisions[-40:], "token_log": r.token_log[-20:], "max_inwork": r.tl.max_inwork,
                "texts": [t[-1200:] for t in texts]}
+        # a redo process may not go away while a script it started is still at work (its tokens would be handed on
+        # although the job still runs) -- except on the internal-error exits (cycle, invalid target), where that is
+        # the documented behaviour and force_return_tokens accounts for it
+        if r.orphans and not case.get("cyclic") and "" not in inv0.spec["argv"]:
+            out.violation = {"property": "C08", "clause": "redo-exited-while-its-job-still-runs", "step": 0,
+                             "detail": dict(ctx, orphans=r.orphans[:5]),
+                             "sig": {"symptom": "orphaned-job", "failing": failing}}
+            return out
         # (2)/(4) own jobserver: never a token-count error, on success, failure and error exits
         for inv, text in zip(r.invs, texts):
             mt = TOKERR.search(text)
